@@ -7,6 +7,8 @@ package main
 
 import (
 	"fmt"
+	"runtime"
+	"strings"
 	"sync"
 	"time"
 
@@ -46,6 +48,27 @@ func installGate() {
 		arr <- struct{}{}
 		<-rel
 	}
+}
+
+// loopState inspects the goroutine dump: "select" = the stream loop is blocked in ITS select, "send" = it is
+// blocked writing to the client (net.Pipe write), "" = running, held at the gate, or gone.
+func loopState() string {
+	buf := make([]byte, 1<<20)
+	n := runtime.Stack(buf, true)
+	for _, g := range strings.Split(string(buf[:n]), "\n\n") {
+		if !strings.Contains(g, "queryResponseStream).Stream") {
+			continue
+		}
+		if strings.Contains(g, "net.(*pipe).write") {
+			return "send"
+		}
+		if strings.HasPrefix(g, "goroutine ") && strings.Contains(g[:strings.Index(g, "\n")], "[select") &&
+			!strings.Contains(g, "main.installGate") {
+			return "select"
+		}
+		return ""
+	}
+	return ""
 }
 
 type queryRun struct {
@@ -251,9 +274,19 @@ func (r *queryRun) step(st h.Step) map[string]interface{} {
 	}
 	if w > 0 {
 		poll(2*time.Second, func() bool { return r.qframes() >= w })
+	}
+	// positive wait for the place the model expects the loop to be in (bounded: the model may be wrong)
+	switch st.Str("pc") {
+	case "gate":
 		if !r.hasDone() {
-			r.awaitGate(2 * time.Second) // after a record the loop comes back to the gate
+			r.awaitGate(2 * time.Second)
 		}
+	case "sel":
+		poll(2*time.Second, func() bool { return loopState() == "select" || r.qframes() > 0 })
+	case "send":
+		poll(2*time.Second, func() bool { return loopState() == "send" })
+	case "end":
+		poll(2*time.Second, func() bool { return r.hasDone() })
 	}
 	return r.observe(0)
 }
